@@ -27,9 +27,11 @@ def run(ctx):
     exes = {b: vlib.build_harness('drv.cpp', vlib.build_lib(b), 'spqlios-fma', b) for b in ('optim', 'debug')}
     cases = []
     dims = [(1, 1), (2, 3), (3, 7), (7, 8), (8, 9), (9, 17), (16, 1), (3, 2), (1, 9)]
-    for (t, b) in LAYOUTS:
+    # every basebit from 1 to 14 with the smallest, a middle and the largest admissible t (a base-specific code path shows only on its base)
+    extra = [(t, b) for b in range(1, 15) for t in sorted({1, 2, max(1, 31 // b - 1), 31 // b}) if t * b <= 31 and (t, b) not in LAYOUTS]
+    for (t, b) in LAYOUTS + extra:
         base = 1 << b
-        for (n, nout) in (dims if t * base <= 64 else dims[:3]):
+        for (n, nout) in ((dims if t * base <= 64 else dims[:3]) if (t, b) in LAYOUTS else [dims[1], dims[0]]):
             if n * t * base * (nout + 1) > 40000: continue
             sin = [rng.randrange(2) for _ in range(n)]; sout = [rng.randrange(2) for _ in range(nout)]
             if n >= 2: sin[0] = 1; sin[1] = 0
@@ -97,7 +99,7 @@ def run(ctx):
             if s != -(2**31): ctx.report('ks-sweep-bias', 'sum of rounding errors over all 2^32 values for (t,b)=(%d,%d) is %d, expected -2^31' % (t, b, s), {'t': t, 'b': b, 'sum': s})
         ctx.cov['exhaustive_sweeps'] = 'all 2^32 mask values on a noiseless key for (8,2),(14,2),(3,10),(1,1)'
     ctx.cov['correspondence_cases'] = len(cases); ctx.cov['disagreements'] = ndis
-    ctx.cov['input_distribution'] = {'layouts': LAYOUTS, 'dims(n_in,n_out)': dims, 'real_keys': real}
+    ctx.cov['input_distribution'] = {'layouts': LAYOUTS + extra, 'dims(n_in,n_out)': dims, 'real_keys': real}
     for c in cases[:: max(1, len(cases) // 6)]: ctx.sample({'case': c[0][:100] + '...', 'build': c[1], 'impl': impl[cases.index(c)][:100]})
 
 def oracle(meta, o):
